@@ -379,6 +379,43 @@ def stdClass (fs : Fields) (j : J) : Option StdClass :=
 def StdClass.name : StdClass → String
   | .null => "null" | .caseFold => "case-fold" | .dottedKey => "dotted-key" | .dupKey => "duplicate-key"
 
+/-! ### the config center (core/configcenter): a CALLER that selects the loader from a `Type` string (round 5d)
+
+`NewConfigCenter[T](Config{Type}, subscriber)`: `Unmarshaler(strings.ToLower(Type))` (registry json / toml / yaml →
+`conf.LoadFrom*Bytes`), `loadConfig` hands the subscribed value to `genValue`, which rejects the empty value and calls
+the loader on `[]byte(data)` — the bytes as they came.  `prep` is what is done to the value on the way (`id` in the code
+that exists; anything else - trimming, re-encoding - is a different function of the bytes). -/
+def ccLoaderOf (typ : Str) : Option Fmt :=
+  let t := lower typ
+  if t = "json".toList then some .json
+  else if t = "toml".toList then some .toml
+  else if t = "yaml".toList then some .yaml
+  else none
+
+def ccValueWith (prep : Str → Str) (run : Fmt → Str → R Val) (typ data : Str) : R Val :=
+  match ccLoaderOf typ with
+  | none => .error .err
+  | some f => if prep data = [] then .error .err else run f (prep data)
+
+/-- the code that exists. -/
+def ccValue (run : Fmt → Str → R Val) (typ data : Str) : R Val := ccValueWith (fun s => s) run typ data
+
+/-- `strings.TrimSpace` on the generator's white space (blank, line break) - for the witness only. -/
+def dropWs : Str → Str
+  | [] => []
+  | c :: cs => if c = ' ' ∨ c = '\n' then dropWs cs else c :: cs
+def trimWs (s : Str) : Str := (dropWs (dropWs s).reverse).reverse
+
+/-- what the extractor's flow of `genValue` says the loader receives: the call `c.unmarshaler(x, _)` with `x` the
+conversion `[]byte(·)` of the function's OWN parameter and nothing in between. -/
+def ccBytesUntouched (calls : List FCall) : Bool :=
+  match calls.find? (fun c => c.callee = "c.unmarshaler") with
+  | some ⟨_, .result k :: _⟩ =>
+    (match calls[k]? with
+     | some ⟨"[]byte", [.param 0]⟩ => true
+     | _ => false)
+  | _ => false
+
 /-! ### the delegating entry points, through their data flow (`Buf.lean` part 2)
 
 The values that travel through `mapping.Unmarshal{Yaml,Toml}{Bytes,Reader}` and `conf.LoadFrom{Yaml,Toml}Bytes`:
